@@ -1,5 +1,5 @@
 (* C06 — A tree is reclaimed exactly once, when its last handle goes away.  Property theorems only. *)
-From CsModel Require Import Red RedProofs Conc ConcProofs ConcReclaim ConcTear.
+From CsModel Require Import Red RedProofs Conc ConcProofs ConcHandles ConcReclaim ConcTear ConcValid Handles HandlesProofs.
 From Coq Require Import ZArith.
 Open Scope Z_scope.
 
@@ -52,3 +52,42 @@ Theorem C06_count_positive : forall g progs s,
   progs <> [] -> Reach g progs s -> c_torn s = false -> c_rc s >= 1.
 Proof. intros g progs s Hp R. exact (reach_RcPos g progs s Hp R). Qed.
 Print Assumptions C06_count_positive.
+
+(* never earlier, seen from the handles: as long as ANY thread holds ANY handle — to the root, an inner
+   node or a token — the teardown has not started, the root block and the block of every initialised node
+   slot are live and have not been freed (the whole tree stays), and the handle denotes the element stored
+   for its position *)
+Theorem C06_handles_stay_valid : forall g progs s tid t r h,
+  Reach g progs s -> nth_error (c_threads s) tid = Some t -> reg_of t r = Some h ->
+  c_torn s = false /\
+  In 0%nat (c_live s) /\ ~ In 0%nat (c_freed s) /\
+  (forall q b, slot_lookup (c_slots s) q = Some (ENode b) -> In b (c_live s) /\ ~ In b (c_freed s)) /\
+  HOk (c_slots s) h.
+Proof. exact handles_stay_valid. Qed.
+Print Assumptions C06_handles_stay_valid.
+
+(* several trees and the handle operations std provides on top of Clone and Drop (clone, clone_from = `*self =
+   source.clone()`, mem::swap, navigation into the same tree, drop): from n trees with one handle each, after ANY
+   sequence of operations the count of every tree is the number of handles pointing into it; a tree has been torn
+   down exactly if no handle points into it — never while one exists, as soon as none exists — and never twice *)
+Theorem C06_handles_reclaim : forall n ops,
+  let s := fst (hrun_ops (hinit n) ops) in
+  (forall t, (t < n)%nat -> nth_error (hs_rc s) t = Some (count t (hs_regs s))) /\
+  NoDup (hs_torn s) /\
+  (forall t, In t (hs_torn s) <-> (t < n)%nat /\ count t (hs_regs s) = 0%nat).
+Proof. exact handles_reclaim. Qed.
+Print Assumptions C06_handles_reclaim.
+
+(* a step reports a teardown exactly when it is the step that tears the tree down *)
+Theorem C06_handles_step_reports : forall n s o, HInvM n s ->
+  forall t, In t (snd (hstep s o)) <-> (~ In t (hs_torn s) /\ In t (hs_torn (fst (hstep s o)))).
+Proof. exact hstep_reports. Qed.
+Print Assumptions C06_handles_step_reports.
+
+(* never leaked: once every remaining handle is dropped, every tree has been torn down and every count is zero *)
+Theorem C06_handles_no_leak : forall n ops,
+  let s := fst (hrun_ops (hinit n) ops) in
+  let s' := fst (hdrop_all s) in
+  forall t, (t < n)%nat -> In t (hs_torn s') /\ nth_error (hs_rc s') t = Some 0%nat.
+Proof. exact handles_no_leak. Qed.
+Print Assumptions C06_handles_no_leak.
